@@ -140,6 +140,13 @@ def check_write_block(ctx):
             return q
         if lit[0] == "case" and key(lit[1]) == "type":
             return (q[0], const_val(lit[2]))
+        if lit[0] not in ("case", "default"):
+            from ..paths import norm_literal
+            for op, a, b2 in norm_literal(lit[0], lit[1]):
+                if op == "==" and a == "type" and b2.isdigit():
+                    return (q[0], int(b2))
+                if op == "==" and b2 == "type" and a.isdigit():
+                    return (q[0], int(a))
         return q
     check_automaton(ctx, "T6-block-trailer", "writer:type-matches-contents", wb, ("?", "?"), step, edge,
                     "compressed bytes are written with the snappy type and raw bytes with type none, on every path")
